@@ -666,17 +666,47 @@ impl<'a> MetaStoreUpdate<'a> {
         let link_count_table = link_table
             .get(&failed_proxy_host)
             .expect("consume_new_proxy: cannot find failed proxy");
-        let peer_host = link_count_table
-            .iter()
-            .filter(|(peer_host, _)| free_host_proxies.contains_key(*peer_host))
+        // The two proxies of a chunk should be on different hosts,
+        // so the host of the surviving proxy is the last choice.
+        let partner_host = self
+            .store
+            .clusters
+            .values()
+            .flat_map(|cluster| cluster.chunks.iter())
+            .find_map(|chunk| {
+                chunk
+                    .proxy_addresses
+                    .iter()
+                    .position(|address| address == &failed_proxy_address)
+                    .map(|i| chunk.hosts[1 - i].clone())
+            });
+        let host_rank = |host: &String| -> usize {
+            if Some(host) == partner_host.as_ref() {
+                2
+            } else if host == &failed_proxy_host {
+                1
+            } else {
+                0
+            }
+        };
+        let zero_count = 0;
+        let peer_host = free_host_proxies
+            .keys()
+            .filter_map(|host| match link_count_table.get(host) {
+                Some(count) => Some((host, count)),
+                None if host == &failed_proxy_host => Some((host, &zero_count)),
+                None => None,
+            })
             .min_by(|(host1, count1), (host2, count2)| {
-                Self::second_host_cmp(
-                    host1.as_str(),
-                    **count1,
-                    host2.as_str(),
-                    **count2,
-                    &free_host_proxies,
-                )
+                host_rank(host1).cmp(&host_rank(host2)).then_with(|| {
+                    Self::second_host_cmp(
+                        host1.as_str(),
+                        **count1,
+                        host2.as_str(),
+                        **count2,
+                        &free_host_proxies,
+                    )
+                })
             })
             .map(|(peer_host, _)| peer_host)
             .ok_or(MetaStoreError::NoAvailableResource)?;
